@@ -57,7 +57,10 @@ Forms == <<
  [name |-> "assert",     toks |-> <<Tk(".assert","start",TRUE,""), Tk("1","ws",FALSE," "), Tk("==","ws",FALSE," "), Tk("1","ws",FALSE," "), Tk("\"m\"","ws",FALSE," "), Tk("nop","start",TRUE,"\n")>>],
  [name |-> "trace",      toks |-> <<Tk(".trace","start",TRUE,""), Tk("(","ws",FALSE," "), Tk("cv","ws",FALSE,""), Tk(",","ws",FALSE,""), Tk("*","ws",FALSE," "), Tk(")","ws",FALSE,""), Tk("nop","start",TRUE,"\n")>>],
  [name |-> "define-seg", toks |-> <<Tk(".define","start",TRUE,""), Tk("segment","ws",FALSE," "), Tk("{","mws",FALSE," "), Tk("name","mws",FALSE," "), Tk("=","mws",FALSE," "), Tk("\"s2\"","mws",FALSE," "), Tk("start","mws",FALSE," "), Tk("=","mws",FALSE," "), Tk("$4000","mws",TRUE," "), Tk("}","mws",FALSE," "),
-                             Tk(".segment","start",TRUE,"\n"), Tk("\"s2\"","ws",FALSE," "), Tk("{","mws",FALSE," "), Tk("nop","start",TRUE," "), Tk("}","mws",FALSE," ")>>]
+                             Tk(".segment","start",TRUE,"\n"), Tk("\"s2\"","ws",FALSE," "), Tk("{","mws",FALSE," "), Tk("nop","start",TRUE," "), Tk("}","mws",FALSE," ")>>],
+ (* forms whose last terminal is a keyword literal (appended: MC_Layout's Pairs refers to the forms above by index) *)
+ [name |-> "byte-bool",  toks |-> <<Tk(".byte","start",TRUE,""), Tk("cv","ws",FALSE," "), Tk(",","ws",FALSE,""), Tk("false","ws",TRUE," ")>>],
+ [name |-> "const-bool", toks |-> <<Tk(".const","start",TRUE,""), Tk("nb","ws",FALSE," "), Tk("=","ws",FALSE," "), Tk("true","ws",TRUE," ")>>]
 >>
 
 WsFillers  == {"", " ", "\t", "  \t ", "/* c */", "/* k */", "/* a /* n */ b */", "/* lda #1 */", " /**/ ", "/** doc **/", "/**** b ****/", "/* x*y / z */"}
@@ -79,5 +82,8 @@ Valid(v) == /\ v.i \in GapIdx(v.f) /\ v.fill \in Fillers(Forms[v.f].toks[v.i].g)
             /\ (v.kind = "gap2" => (v.j \in GapIdx(v.f) /\ v.j > v.i /\ v.fill2 \in Fillers(Forms[v.f].toks[v.j].g)))
 CaseVariants == {[kind |-> "case", f |-> f, i |-> i, j |-> 0, fill |-> c, fill2 |-> ""] : f \in 1..Len(Forms), i \in 1..30, c \in {"upper", "mixed"}}
 ValidCase(v) == v.i <= Len(Forms[v.f].toks) /\ Forms[v.f].toks[v.i].c
+(* the gap between the last terminal and the end of the file: the canonical text ends in one line feed *)
+TailFillers == {"", " ", "\t", "\r\n", "\n\n\n", "// c", " // c", "/* c */", " /* c */\n", "\n// c", "\n/* c */", "\n \t"}
+TailV == {[kind |-> "tail", f |-> f, i |-> 0, j |-> 0, fill |-> x, fill2 |-> ""] : f \in 1..Len(Forms), x \in TailFillers}
 Whole == {[kind |-> w, f |-> f, i |-> 0, j |-> 0, fill |-> "", fill2 |-> ""] : f \in 1..Len(Forms), w \in {"crlf", "allcomment", "allupper", "alltabs"}}
 ================================================================================
